@@ -100,10 +100,11 @@ type worker struct {
 	viols    []string
 	incon    []string
 	counts   map[string]int64
+	scopes   map[string]bool // open findings whose construct is kept out of the sweep
 }
 
 func newWorker() *worker {
-	return &worker{verdicts: map[verdictKey]*verdict{}, boxed: map[int]*verdict{}, sigs: map[string]struct{}{}, counts: map[string]int64{}}
+	return &worker{verdicts: map[verdictKey]*verdict{}, boxed: map[int]*verdict{}, sigs: map[string]struct{}{}, counts: map[string]int64{}, scopes: map[string]bool{}}
 }
 
 // build builds the template of context ci with the given prelude and globals.
@@ -246,8 +247,10 @@ func (w *worker) judge(ci int, mode, typeName string, varType reflect.Type, val 
 		w.viols = append(w.viols, where+": Run panicked in the host: "+o.msg)
 		return
 	case "error":
-		// not a "cannot show" failure: outside the property text; reported, not judged
-		w.incon = append(w.incon, where+": Run failed with an error that is not a cannot-show error: "+o.msg)
+		// The templates consist of one show: an error of Run that is not a "cannot show" error
+		// (for example a *PanicError raised while the value is formatted) is still the show
+		// failing at run time for a value of a statically accepted type.
+		w.viols = append(w.viols, where+": the show was accepted by the type checker but Run fails: "+o.msg)
 		return
 	}
 	// a "cannot show" failure
@@ -367,12 +370,18 @@ type caseData struct {
 	Mode   string `json:"mode,omitempty"`   // render | macro | import-macro
 	Enc    string `json:"enc,omitempty"`    // position of the call in the caller
 	Callee string `json:"callee,omitempty"` // restrict to one callee position (replays)
+	Form   string `json:"form,omitempty"`   // declvalue: restrict to one form (replays)
+	// Scopes lists the open findings (d.InScope) whose construct this case must not generate.
+	Scopes []string `json:"scopes,omitempty"`
 }
 
 func (prop) Work(c core.Case) core.Result {
 	var cd caseData
 	c.Decode(&cd)
 	w := newWorker()
+	for _, sc := range cd.Scopes {
+		w.scopes[sc] = true
+	}
 	switch cd.Kind {
 	case "entry":
 		found := false
@@ -387,6 +396,17 @@ func (prop) Work(c core.Case) core.Result {
 		}
 	case "declared":
 		w.checkDeclared(cd.Type)
+	case "declvalue":
+		found := false
+		for _, k := range declKinds {
+			if k.name == cd.Type {
+				w.checkDeclaredValues(k, cd.Form, cd.Ctx)
+				found = true
+			}
+		}
+		if !found {
+			return core.Result{Status: core.Inconclusive, Detail: "unknown declared kind " + cd.Type}
+		}
 	case "cross":
 		ei := -1
 		for i, c := range contexts {
@@ -653,7 +673,8 @@ func (prop) Drive(d *core.Driver) error {
 	d.T.Rule = fmt.Sprintf("the complete table of %d types (every basic kind, named variants, byte slices, Stringer/error/EnvStringer implementers by value and by pointer, the five trusted types, implementers of the ten format Stringer interfaces, time types, arrays/slices/maps/structs/pointers/func/chan/unsafe.Pointer, and %d interface static types with dynamic values) x %d positions (the 14 contexts, read back from scriggo's parsed tree, plus URL/srcset/script/style/JSON-LD positions) x {static, boxed in any} x >=4 values each is enumerated completely; plus %d types declared in the template itself, plus seeded random composite types (reflect-built, depth<=3); plus the cross family: the show sits in a rendered file, in a macro of the same file or in a macro of an imported file (every position of the table) and the call sits at every position of the caller, for 29 representative types (relation: no run-time failure if the pair builds; transparent and plain-attribute calls reproduce the callee's own output). "+
 		"evaluations = Run calls + statically rejected (type, context) pairs; distinct_nontrivial counts distinct (position, type, static verdict) triples observed", len(tab), 15, len(contexts), len(basicKinds))
 	d.T.Assumptions = []string{
-		"a run-time failure counts when Run returns an error containing \"cannot show\" or panics in the host; other Run errors are reported as inconclusive (outside the property text)",
+		"the templates consist of one show (plus declarations), so every error returned by Run and every host panic counts as the show failing at run time",
+		"cyclic values are not generated (a cycle has no JS/JSON representation; its refusal is the documented behaviour); constructs of listed open findings are left out of the sweep and replayed as witnesses",
 		"the static verdict for a type is scriggo's own: BuildTemplate of the same template with a global variable of that type",
 		"nil pointers to types whose String/Error method has a value receiver are not generated (the method call itself panics in Go)",
 		"exhaustive only over the stated table; random composite types are sampled",
@@ -662,11 +683,24 @@ func (prop) Drive(d *core.Driver) error {
 	d.T.Set("table_types", len(tab))
 	d.T.Set("table_values", nvals)
 	var cases []core.Case
+	var scopes []string
+	for _, sc := range []string{"js-time-year-out-of-range", "declared-byte-slice-js"} {
+		if d.InScope(sc) {
+			scopes = append(scopes, sc)
+		}
+	}
+	d.T.Set("open_finding_scopes_excluded", scopes)
 	for _, en := range tab {
+		if en.scope != "" && d.InScope(en.scope) {
+			continue
+		}
 		cases = append(cases, core.NewCase("entry-"+en.name, caseData{Kind: "entry", Type: en.name}))
 	}
 	for _, k := range basicKinds {
 		cases = append(cases, core.NewCase("declared-"+k, caseData{Kind: "declared", Type: k}))
+	}
+	for _, k := range declKinds {
+		cases = append(cases, core.NewCase("declvalue-"+k.name, caseData{Kind: "declvalue", Type: k.name, Scopes: scopes}))
 	}
 	for _, mode := range crossModes {
 		for _, c := range contexts {
